@@ -1,5 +1,6 @@
 """Layout rules of MPS/MPO arithmetic shared by C02.R4 and C03 (leg order vs. label order, block layout of sums)."""
 import ast
+from ..defuse import before as _before
 import re
 
 from ..loader import norm, AnalysisError
@@ -680,7 +681,7 @@ def label_builders(fi):
                         b.value.func.attr == 'append' and len(b.value.args) == 1 and 'qnumber_flatten' in norm(b.value.args[0]):
                     lst = norm(b.value.func.value)
                     init = [x for x in fi.node.body if isinstance(x, ast.Assign) and norm(x.targets[0]) == lst and
-                            isinstance(x.value, ast.List) and not x.value.elts and x.lineno < s_.lineno]
+                            isinstance(x.value, ast.List) and not x.value.elts and _before(fi.node, x, s_)]
                     if init:
                         out.append((b.value.args[0], s_.target.id, s_.iter))
     return out
